@@ -42,6 +42,10 @@ def stretch_mask(strb):
     return m
 
 
+SLOT_KINDS = ("mem", "mem_nomask", "flag", "win_addr", "win_data", "wflag", "rflag", "wcount")
+UNOBSERVED = "?"  # value of a storing field that has no output port (checked through the bus only)
+
+
 class RegModel:
     """Stored state = tuple with one int per storing field (kinds mem / flag), in declaration order."""
 
@@ -53,7 +57,7 @@ class RegModel:
         self.slot_of = {}
         for ri, r in enumerate(self.regs):
             for f in r["fields"]:
-                if f["kind"] in ("mem", "flag", "win_addr", "win_data"):
+                if f["kind"] in SLOT_KINDS:
                     self.slot_of[(ri, f["name"])] = len(self.slots)
                     self.slots.append((ri, f))
         self.init = tuple(f.get("default", 0) for _, f in self.slots)
@@ -61,6 +65,9 @@ class RegModel:
         # notification ports: (reg index, event, port)
         self.notes = [(ri, ev, port) for ri, r in enumerate(self.regs) for ev, port in r["notify"]]
         self.clears = [(self.slot_of[(ri, f["name"])], f["clear"]) for ri, f in self.slots if f["kind"] == "flag"]
+        self.rflags = {ri: self.slot_of[(ri, f["name"])] for ri, f in self.slots if f["kind"] == "rflag"}
+        self.observed = [i for i, p in enumerate(self.ports) if p is not None]
+        self.all_observed = len(self.observed) == len(self.ports)
 
     def reg_of(self, addr):
         """register index addressed by a (word aligned) byte address, or None"""
@@ -69,17 +76,34 @@ class RegModel:
     def word(self, state, ri, hw, addr=None):
         """32-bit value a bus read of register ri sees in a cycle with hardware inputs hw (dict port->value)"""
         r = self.regs[ri]
+        if addr is not None and addr & 3 and r.get("unaligned"):
+            # unaligned dword read of a memory: bytes addr .. addr+3 (upstream MemMock.read_unaligned)
+            o = addr & 3
+            lo = self.word(state, ri, hw, addr & ~3)
+            rj = self.reg_of((addr & ~3) + 4)
+            hi = self.word(state, rj, hw, (addr & ~3) + 4) if rj is not None else 0
+            return ((lo >> (8 * o)) | (hi << (32 - 8 * o))) & 0xFFFFFFFF
+        if r.get("writeonly"):
+            return 0
         if "read_tag" in r:
-            # address window (AddrRange with a user handler): the handler returns tag | relative address
-            return r["read_tag"] | ((addr & ~3) - r["addr"])
+            # address window (AddrRange with a user handler): the handler returns tag | (relative or global) address
+            a = addr & ~3
+            return r["read_tag"] | (a if r.get("global_addr") else a - r["addr"])
         v = 0
-        for f in self.regs[ri]["fields"]:
+        for f in r["fields"]:
+            if f["hi"] < 0:
+                continue
             w = f["hi"] - f["lo"] + 1
-            if f["kind"] == "hw":
+            k = f["kind"]
+            if k == "hw":
                 x = hw[f["hw"]]
+            elif k == "const":
+                x = f["default"]
             else:
                 x = state[self.slot_of[(ri, f["name"])]]
             v |= (x & ((1 << w) - 1)) << f["lo"]
+        if r.get("read_reverse"):  # user _on_read_ returns the bit-reversed content
+            v = int(f"{v:032b}"[::-1], 2)
         return v
 
     def write(self, state, addr, data, strb):
@@ -87,21 +111,38 @@ class RegModel:
         ri = self.reg_of(addr)
         if ri is None:
             return state, ()
+        if addr & 3 and self.regs[ri].get("unaligned"):
+            # unaligned dword write of a memory = byte i of the data goes to byte address addr+i (MemMock.write_unaligned)
+            o = addr & 3
+            a = addr & ~3
+            st, _ = self.write(state, a, (data << (8 * o)) & 0xFFFFFFFF, (strb << o) & 0xF)
+            st, _ = self.write(st, a + 4, data >> (32 - 8 * o), strb >> (4 - o))
+            return st, ()
         m32 = stretch_mask(strb)
         st = list(state)
         flags = []
+        base = self.regs[ri]["addr"]
         for f in self.regs[ri]["fields"]:
             k = f["kind"]
-            if k == "hw":
+            if k in ("hw", "const", "rflag"):
                 continue
             slot = self.slot_of[(ri, f["name"])]
+            if k == "wcount":  # user _on_write_ override: counts write accesses, ignores the data
+                st[slot] = (st[slot] + 1) & ((1 << (f["hi"] - f["lo"] + 1)) - 1)
+                continue
+            if k == "wflag":  # FlagOnNotify.Write: set by every write access to the register
+                st[slot] = 1
+                continue
+            if k == "win_addr":  # the window handler records the (relative / global) address of the last write
+                st[slot] = (addr & ~3) - (0 if self.regs[ri].get("global_addr") else base)
+                continue
             w = f["hi"] - f["lo"] + 1
             fm = (m32 >> f["lo"]) & ((1 << w) - 1)
             fd = (data >> f["lo"]) & ((1 << w) - 1)
             if k == "mem" or k == "win_data":
                 st[slot] = (st[slot] & ~fm) | (fd & fm)
-            elif k == "win_addr":  # the window handler records the relative address of the last write
-                st[slot] = (addr & ~3) - self.regs[ri]["addr"]
+            elif k == "mem_nomask":  # Memory MaskMode.IGNORE: "the mask parameter is ignored", the whole word is stored
+                st[slot] = fd
             else:  # flag: strobed '1' sets, anything else leaves it
                 if fm & fd & 1:
                     st[slot] = 1
@@ -315,16 +356,18 @@ class Monitor:
         cmin = 1 if (popped_write is not None and not popped_write[3]) else 0
         # read notifications: reads (popped one must be notified by now) of registers with a read notification
         rnote_ports = {ri: k for k, (ri, evn, port) in enumerate(m.notes) if evn == "read"}
+        rnote_regs = set(rnote_ports) | set(m.rflags)  # registers with a read notification (pulse and/or sticky flag)
+        obs_idx = m.observed
         wnote_ports = {ri: k for k, (ri, evn, port) in enumerate(m.notes) if evn == "write"}
         rcand = []  # (index in rd or -1, reg index, forced)
         if popped_read is not None and not popped_read[3]:
             ri = m.reg_of(popped_read[0])
-            if ri in rnote_ports:
+            if ri in rnote_regs:
                 rcand.append((-1, ri, True))
         for i, r in enumerate(rd):
             if not r[3]:
                 ri = m.reg_of(r[0])
-                if ri in rnote_ports:
+                if ri in rnote_regs:
                     rcand.append((i, ri, False))
         # hardware-side clears at this edge
         clear_slots = [slot for slot, port in m.clears if hw[port] == 1]
@@ -353,14 +396,24 @@ class Monitor:
             for k in range(0, len(nfree) + 1):
                 notes = list(wnotes)
                 fired = [x for x in rcand if x[2]] + nfree[:k]
+                sticky = []
                 for _, ri, _ in fired:
-                    notes[rnote_ports[ri]] = 1
+                    if ri in rnote_ports:
+                        notes[rnote_ports[ri]] = 1
+                    if ri in m.rflags:  # FlagOnNotify.Read: set by the read access, stays set
+                        sticky.append(m.rflags[ri])
                 for combo in itertools.product((0, 1), repeat=len(open_slots)):
                     cand = list(base)
                     for slot, v in zip(open_slots, combo):
                         cand[slot] = v
+                    for slot in sticky:
+                        cand[slot] = 1
                     cand = tuple(cand)
-                    if cand == obs_regs and tuple(notes) == obs_notes:
+                    if m.all_observed:
+                        same = cand == obs_regs
+                    else:
+                        same = all(cand[i] == obs_regs[i] for i in obs_idx)
+                    if same and tuple(notes) == obs_notes:
                         # accept
                         if cand != self.regs:
                             self._ev("regs-changed")
@@ -379,12 +432,13 @@ class Monitor:
                         if clear_slots:
                             self._ev("hw-clear")
                         return
-                    nd = sum(1 for x, y in zip(cand + tuple(notes), obs_regs + obs_notes) if x != y)
+                    nd = sum(1 for x, y in zip(cand + tuple(notes), obs_regs + obs_notes) if x != y and y != UNOBSERVED)
                     if first_diff is None or nd < first_diff[2]:
                         first_diff = (cand, tuple(notes), nd)
         # no explanation
         exp_regs, exp_notes, _nd = first_diff
-        names = m.ports + [p for _, _, p in m.notes]
+        names = [p or "-" for p in m.ports] + [p for _, _, p in m.notes]
+        obs_regs = tuple(e if o == UNOBSERVED else o for o, e in zip(obs_regs, first_diff[0]))
         diffs = [f"{n}: design={_hx(o)} model={_hx(e)}" for n, o, e in
                  zip(names, obs_regs + obs_notes, exp_regs + exp_notes) if o != e]
         diff_ports = "+".join(n for n, o, e in zip(names, obs_regs + obs_notes, exp_regs + exp_notes) if o != e)
